@@ -28,6 +28,7 @@ from ..runner import Ctx, Part, exc_sig
 from ..sim.gateway import GW_ADDR
 from ..sim.secure_gateway import SERVER_SERIAL, PatchCrypto, SecureServer
 from ..vloop import World
+from xknx.exceptions import CouldNotParseKNXIP
 from .c24 import make_cemi
 
 TITLE = "secure session freshness; no plain sends"
@@ -48,7 +49,14 @@ class SessionWorld(World):
         self.srv = SecureServer(self.loop)
         self.delivered: list[Any] = []
         self.session = SecureSession(remote_addr=GW_ADDR, user_id=2, user_password="secret", device_authentication_password="trustme")
-        self.session.register_callback(lambda frame, src, tr: self.delivered.append(frame.body))
+        self.consumer_raises: type[BaseException] | None = None
+
+        def consumer(frame: Any, src: Any, tr: Any) -> None:
+            self.delivered.append(frame.body)
+            if self.consumer_raises is not None:
+                raise self.consumer_raises("consumer cannot use this frame")
+
+        self.session.register_callback(consumer)
         self.task = self.spawn(self.session.connect(), name="harness-connect")
         if connect:
             self.loop.settle()
@@ -144,6 +152,25 @@ def bfs(part: Part, max_seq: int) -> None:
                     part.viol(f"receive-counter-wrong:{kind}", f"last accepted {state}, event {kind} seq={seq}: counter now {after}, reference {want_after}", case, rank=(len(hist),))
                 if after not in seen and after <= max_seq and still_open:
                     frontier.append(hist + [ev])
+                if kind == "genuine":
+                    # the same transition with a consumer that raises while handling the frame: passed on once, the counter
+                    # advances all the same (otherwise the very same wrapper would be accepted again)
+                    for exc_type in (CouldNotParseKNXIP, RuntimeError):
+                        w = rebuild()
+                        try:
+                            w.consumer_raises = exc_type
+                            got, _exc = w.feed(w.frame_for(kind, seq, 100 + seq))
+                            after2 = w.session._sequence_number_received  # noqa: SLF001
+                            got2, _exc2 = w.feed(w.frame_for(kind, seq, 100 + seq))
+                        finally:
+                            w.close()
+                        part.transitions += 2
+                        part.evaluations += 1
+                        case2 = {"kind": "rx", "history": [list(h) for h in hist], "event": list(ev), "consumer_raises": exc_type.__name__}
+                        if bool(got) != want or after2 != want_after:
+                            part.viol("receive-counter-wrong:raising-consumer", f"last accepted {state}, genuine seq={seq}, consumer raises {exc_type.__name__}: delivered {len(got)}, counter {after2}, reference {int(want)} / {want_after}", case2, rank=(len(hist),))
+                        if got2:
+                            part.viol("session-receive:replayed-or-stale-frame-delivered:raising-consumer", f"last accepted {state}: the same wrapper (seq={seq}) is passed on again after the consumer raised {exc_type.__name__} for it", case2, rank=(len(hist),))
     part.states += len(seen)
     part.traces += len(seen)
     part.sample({"states(last accepted sequence)": sorted(seen), "events_per_state": len(events)})
